@@ -165,3 +165,72 @@ func c15TeeWriters(c *Ctx, px *c15Proxier) {
 		}
 	}
 }
+
+// c15NoOverread: io.ReadAtLeast(r, buf, min) may take more than min bytes off the stream – up to len(buf). Every
+// byte it took belongs to the relayed stream, so each later slice of that buffer that leaves the function (returned,
+// written, recorded) must be cut at the count ReadAtLeast returned; cutting it at a parsed message length instead
+// silently drops whatever followed the message in the same segment (a pipelined second query).
+func c15NoOverread(c *Ctx, px *c15Proxier) {
+	p := c.P
+	for _, fn := range px.reach {
+		for _, call := range Calls(fn) {
+			cv, ok := call.(*ssa.Call)
+			if !ok || !CalleeIs(call, "io", "ReadAtLeast") {
+				continue
+			}
+			buf := cv.Call.Args[1]
+			if mn, isC := ConstInt(cv.Call.Args[2]); isC {
+				// a buffer cut to exactly min cannot over-read
+				if sl, ok := buf.(*ssa.Slice); ok && sl.High != nil {
+					if hi, ok := ConstInt(sl.High); ok && sl.Low == nil && hi == mn {
+						c.Ok("stream-read-not-overread", px.name+": ReadAtLeast in "+shortFn(fn), p.InstrPos(call), "buffer is exactly the minimum")
+						continue
+					}
+				}
+			}
+			var m ssa.Value
+			for _, r := range *cv.Referrers() {
+				if ex, ok := r.(*ssa.Extract); ok && ex.Index == 0 {
+					m = ex
+				}
+			}
+			base := bufBase(buf)
+			after := InstrReachFrom(fn, cv, nil, nil)
+			bad := ""
+			for _, b := range fn.Blocks {
+				for _, in := range b.Instrs {
+					sl, ok := in.(*ssa.Slice)
+					if !ok || !after(sl) || bufBase(sl) != base || sl == buf {
+						continue
+					}
+					// slices that only feed further reads into the same buffer are not output
+					onlyReads := sl.Referrers() != nil && len(*sl.Referrers()) > 0
+					for _, r := range *sl.Referrers() {
+						rc, isCall := r.(ssa.CallInstruction)
+						if !isCall {
+							onlyReads = false
+							continue
+						}
+						if _, _, isRead := completeRead(rc); !isRead {
+							if _, _, isR := readCall(rc); !isR {
+								onlyReads = false
+							}
+						}
+					}
+					if onlyReads {
+						continue
+					}
+					if sl.Low != nil {
+						if lo, ok := ConstInt(sl.Low); !ok || lo != 0 {
+							continue // a tail slice, judged by its own later cuts
+						}
+					}
+					if m == nil || sl.High == nil || sl.High != m {
+						bad = p.InstrPos(sl) + " `" + RenderN(sl, 3) + "`"
+					}
+				}
+			}
+			c.Check(bad == "", "stream-read-not-overread", px.name+": ReadAtLeast in "+shortFn(fn), p.InstrPos(call), "what leaves the function is cut at the count ReadAtLeast returned", "io.ReadAtLeast may take more than the minimum off the stream (up to the whole buffer), but the bytes handed on are cut elsewhere ("+bad+"), not at the count it returned: whatever followed the message in the same segment – a pipelined second message – is dropped and never relayed")
+		}
+	}
+}
